@@ -280,8 +280,18 @@ def attach_after_occurrence_check(ctx, cg):
             n_defs += 1
             ok, why = _def_is_max_filtered(g, d, var, a)
             res.check(ok, 'R-DOM.attach-max', ae.fq, f"definition `{short(d.ast, 70)}` of the attach target is max-filtered",
-                      fail_detail=why, key=f"R-DOM.attach-max|{short(d.ast, 90)}", line=d.line)
+                      fail_detail=why, key=f"R-DOM.attach-max|{_def_kind(d, ae)}", line=d.line)
     res.floor('R-DOM.attach-max reaching definitions', n_defs, 2)
+
+
+def _def_kind(d, ae) -> str:
+    """Rename-stable description of a definition of the attach target: which kind of collection, indexed by what."""
+    v = d.ast.value if isinstance(d.ast, ast.Assign) else None
+    if isinstance(v, ast.Subscript):
+        idx = unparse(v.slice)
+        kind = 'parameter' if isinstance(v.slice, ast.Name) and v.slice.id in ae.params else 'constant' if isinstance(v.slice, (ast.Constant, ast.UnaryOp)) else 'expression'
+        return f"candidate-leaves[{idx if kind != 'expression' else kind}] ({kind} index)"
+    return 'other'
 
 
 def _is_max_filter(cond, var) -> bool:
